@@ -87,9 +87,14 @@ class C05(InterpProp):
             res.features.add('forwarded-to-bound-interpreter')
 
     def make_ops(self, rnd, knobs, sc):
+        import re
         ops = []
         t = 0
         dues = []
+        # the delayed events the statechart's own code sends: an external event may look exactly like one of them
+        code = '\n'.join(filter(None, [getattr(sc.state_for(n), a, None) for n in sc.states for a in ('on_entry', 'on_exit')] +
+                                [tr.action for tr in sc.transitions]))
+        delayed = re.findall(r"send\('(\w+)', delay=(-?\d+), v=y, b=(True|False)\)", code)
         for _ in range(self.n_ops):
             c = rnd.random()
             if c < 0.45:
@@ -99,6 +104,15 @@ class C05(InterpProp):
                     data.append(['delay', d])
                     dues.append(t + d)
                 name = rnd.choice(gen.EVENTS) if rnd.random() < 0.85 else 'zz'
+                if delayed and rnd.random() < 0.2:
+                    nm, d, b = rnd.choice(delayed)
+                    name = nm
+                    data = [['delay', int(d)], ['v', rnd.choice([0, 0, 0, 1, 2])], ['b', b == 'True']]
+                    dues.append(t + int(d))
+                elif rnd.random() < 0.06:
+                    # an undelayed event that carries a delayed one as its parameter `event`
+                    data = [kv for kv in data if kv[0] != 'delay'] + \
+                        [['event', {'ev': 'inner', 'data': [['delay', rnd.randint(1, 3)]]}]]
                 if rnd.random() < knobs.clock_moves:
                     # the clock moves between two steps: the due time counts from the *interpreter's* time
                     t += rnd.choice([1, 2, 3])
